@@ -141,6 +141,14 @@ Theorem C17_certificate_ok_opt : forall V E s t W A P, certificate_ok V E s t W 
 Proof. exact certificate_ok_opt. Qed.
 Print Assumptions C17_certificate_ok_opt.
 
+(* stDAG's width cache (self.width): for EVERY history of get_width(edges_to_ignore) / compute_max_edge_antichain(weight_function)
+   calls on one object, every answer is what a fresh object answers, whatever the external min-flow engine [solve] computes:
+   the cached width is read by get_width() with an empty ignore list only. *)
+Theorem C17_width_cache_coherent : forall (s t : node) (solve : (edge -> Z) -> Z) (os : list wop),
+  wrun s t solve None os = map (fun o => solve (wop_demand s t o)) os.
+Proof. exact width_cache_coherent. Qed.
+Print Assumptions C17_width_cache_coherent.
+
 (* ------------------------------------------------------------------ bottleneck path and peeling *)
 (* keyerr: false = code_nosink_keyerror = the code as it is; true = the behaviour before /repo 6d36e70 *)
 Theorem C17_max_bottleneck_sound : forall keyerr G P S topo (f : edge -> Z) b p,
